@@ -752,16 +752,28 @@ def array_arguments(run):
         for kw in [dict(gcf_k=0.5), dict(gcf_k=2.0, range_type="relative cp",
                                          range_x=[-2e-6, 1e-6]),
                    dict(gcf_k=0.5, optimal_fit_edelta=True,
-                        optimal_fit_num_samples=8)]:
+                        optimal_fit_num_samples=8),
+                   # passes that cannot be fitted (too few points)
+                   dict(gcf_k=0.5, range_x=[5e-6, 5.00001e-6]),
+                   dict(gcf_k=2.0, range_type="relative cp",
+                        range_x=[1e-3, 2e-3])]:
             idnt = curve(8)
             idnt.apply_preprocessing(list(PIPE))
             p = idnt.get_initial_fit_parameters(model_key="hertz_para")
+            p["contact_point"].set(value=3e-7)      # (not 0: k * 0 = 0)
             ps = copy.deepcopy(p)
             run.case({"api": "fit_model", "kw": kw}, kind="array")
             try:
                 idnt.fit_model(params_initial=p, model_key="hertz_para", **kw)
             except BaseException as e:
                 run.count("fit:raised:" + type(e).__name__)
+            stored = idnt.fit_properties.get("params_initial")
+            if stored is not None and not same(ps, stored):
+                run.failing(SITE, f"fit_model|{sorted(kw)}|stored",
+                            f"fit_model({kw}): the initial parameters the "
+                            "curve remembers differ from the values that "
+                            "were passed", payload={"kind": "rerun"},
+                            theorem="C10_by_value")
             if not same(ps, p):
                 run.failing(SITE, f"fit_model|{sorted(kw)}|mutated",
                             f"fit_model({kw}) modified the caller's initial "
